@@ -6,6 +6,7 @@ import (
 	"go/ast"
 	"go/token"
 	"go/types"
+	"strings"
 )
 
 // NoPathAvoiding: from no occurrence of `from` is an occurrence of `to` reachable
@@ -538,20 +539,154 @@ func ruleR04_2(c *Check) {
 
 func ruleR04_3(c *Check) {
 	w := c.W
-	r := c.Rule("R04.3", "E3", 4, "Txn.pendingWrites is read only by Txn methods (and the overlay iterator they build); it flows into the write path only in commitAndSend",
+	r := c.Rule("R04.3", "E3", 4, "Txn.pendingWrites and Txn.duplicateWrites are touched only through the receiver of a Txn method (the owning transaction itself) or on the transaction being constructed in newTransaction; entries are handed to the write path (sendToWriteCh) only by commitAndSend",
 		"isolation: nothing but the owning transaction sees uncommitted writes, and nothing but Commit publishes them")
-	pw := w.Field("badger.Txn.pendingWrites")
-	allowed := map[string]bool{"badger.Txn.Get": true, "badger.Txn.modify": true, "badger.Txn.newPendingWritesIterator": true,
-		"badger.Txn.commitAndSend": true, "badger.Txn.commitPrecheck": true, "badger.Txn.Commit": true, "badger.Txn.CommitWith": true,
-		"badger.DB.newTransaction": true}
+	pw, dw := w.Field("badger.Txn.pendingWrites"), w.Field("badger.Txn.duplicateWrites")
+	txnT := w.Obj("badger.Txn")
 	var k keyer
-	for _, o := range allSites(w, "badger", selUse(pw)) {
-		root := o.SiteFn.Root().Name
-		r.Check(allowed[root], o.SiteFn, k.key("pendingWrites used in "+root, w, o.Node), o.Node, "Txn.pendingWrites accessed from "+root)
+	for _, o := range allSites(w, "badger", selUse(pw, dw)) {
+		root := o.SiteFn.Root()
+		base := unparen(o.Node.(*ast.SelectorExpr).X)
+		id, isId := base.(*ast.Ident)
+		ok := false
+		if isId {
+			v, _ := w.Use(id).(*types.Var)
+			switch {
+			case v == nil:
+			case root.Decl != nil && root.Decl.Recv != nil && len(root.Decl.Recv.List) == 1 && len(root.Decl.Recv.List[0].Names) == 1 &&
+				w.Info.Defs[root.Decl.Recv.List[0].Names[0]] == types.Object(v) && namedOf(v.Type()) == txnT:
+				ok = true // the method's own receiver
+			case root.Name == "badger.DB.newTransaction":
+				// the transaction under construction: a local defined from a composite literal
+				for _, d := range w.DefsOf(root, v) {
+					if ue, isU := unparen(d).(*ast.UnaryExpr); isU {
+						if _, isLit := ue.X.(*ast.CompositeLit); isLit {
+							ok = true
+						}
+					}
+				}
+			}
+		}
+		r.Check(ok, o.SiteFn, k.key("pending writes touched through the owner only, in "+root.Name, w, o.Node), o.Node, "Txn."+o.Node.(*ast.SelectorExpr).Sel.Name+" is reached through `"+types.ExprString(base)+"`, which is not the owning transaction's receiver")
+	}
+	// only commitAndSend publishes: the callers of sendToWriteCh that belong to Txn
+	for _, o := range allSites(w, "badger", selCall(w.Func("badger.DB.sendToWriteCh"))) {
+		root := o.SiteFn.Root()
+		if root.Decl != nil && root.Decl.Recv != nil && strings.HasPrefix(root.Name, "badger.Txn.") {
+			r.Check(root.Name == "badger.Txn.commitAndSend", o.SiteFn, "transaction entries published by commitAndSend only", o.Node, "Txn method "+root.Name+" sends entries to the write channel")
+		}
+	}
+}
+
+func namedOf(t types.Type) types.Object {
+	if p, ok := t.(*types.Pointer); ok {
+		t = p.Elem()
+	}
+	if n, ok := t.(*types.Named); ok {
+		return n.Obj()
+	}
+	return nil
+}
+
+func ruleR04_4(c *Check) {
+	w := c.W
+	r := c.Rule("R04.4", "E5", 4, "the overlay iterator is ordered like the iterators it is merged with: newPendingWritesIterator sorts the pending entries ascending by key, descending when reversed; Seek positions at the first entry >= the target going forward and <= going backward, on the user key (ParseKey) of the internal target; Value reports the pending entry's value, meta, user meta and expiry",
+		"an overlay sorted the other way (or sought with the opposite comparison) makes the merge iterator skip or misplace the transaction's own writes")
+	np := w.F("badger.Txn.newPendingWritesIterator")
+	// the sort.Slice less function: cmp < 0 forward, cmp > 0 reversed
+	okF, okR := false, false
+	np.walkDeep(func(own *Fn, n ast.Node) bool {
+		rs, ok := n.(*ast.ReturnStmt)
+		if !ok || len(rs.Results) != 1 || own == np {
+			return true
+		}
+		// oriented as Compare(entries[<first parameter of less>].Key, …) op 0
+		var first types.Object
+		if own.Lit != nil && len(own.Lit.Type.Params.List) > 0 && len(own.Lit.Type.Params.List[0].Names) > 0 {
+			first = w.Info.Defs[own.Lit.Type.Params.List[0].Names[0]]
+		}
+		op, _, ok := w.threeWay(rs.Results[0], true, func(e ast.Expr) bool { return first != nil && w.mentions(e, first) }, w.Func("bytes.Compare"), w.Func("y.CompareKeys"))
+		if !ok {
+			return true
+		}
+		rev := -1
+		for _, g := range w.Guards(own, rs) {
+			if id, ok := unparen(g.Cond).(*ast.Ident); ok {
+				if pv, ok := w.Use(id).(*types.Var); ok && isParam(np, pv) {
+					if g.Val {
+						rev = 1
+					} else {
+						rev = 0
+					}
+				}
+			}
+		}
+		if rev == 0 && op == token.LSS {
+			okF = true
+		}
+		if rev == 1 && op == token.GTR {
+			okR = true
+		}
+		return true
+	})
+	r.Check(okF, np, "pending entries ascending when iterating forward", nil, "forward order of the overlay is not `cmp < 0`")
+	r.Check(okR, np, "pending entries descending when iterating in reverse", nil, "reverse order of the overlay is not `cmp > 0`")
+	sk := w.F("badger.pendingWritesIterator.Seek")
+	r.Check(len(sk.Sites(selCallName(w, "y.ParseKey"))) == 1, sk, "overlay seeks on the user key", nil, "pendingWritesIterator.Seek no longer strips the version from its target")
+	okSF, okSR := false, false
+	revFld := w.Field("badger.pendingWritesIterator.reversed")
+	keyFld := w.Field("badger.Entry.Key")
+	sk.walkDeep(func(own *Fn, n ast.Node) bool {
+		rs, ok := n.(*ast.ReturnStmt)
+		if !ok || len(rs.Results) != 1 || own == sk {
+			return true
+		}
+		// oriented as Compare(entries[idx].Key, target) op 0
+		op, _, ok := w.threeWay(rs.Results[0], true, func(e ast.Expr) bool { return w.fieldOf(w.from(e)) == keyFld }, w.Func("bytes.Compare"), w.Func("y.CompareKeys"))
+		if !ok {
+			return true
+		}
+		rev := -1
+		for _, g := range w.Guards(own, rs) {
+			if w.fieldOf(unparen(g.Cond)) == revFld {
+				if g.Val {
+					rev = 1
+				} else {
+					rev = 0
+				}
+			}
+		}
+		if rev == 0 && op == token.GEQ {
+			okSF = true
+		}
+		if rev == 1 && op == token.LEQ {
+			okSR = true
+		}
+		return true
+	})
+	r.Check(okSF, sk, "forward seek lands on the first entry >= target", nil, "forward seek predicate is not `cmp >= 0`")
+	r.Check(okSR, sk, "reverse seek lands on the first entry <= target", nil, "reverse seek predicate is not `cmp <= 0`")
+	// Value copies the pending entry's fields
+	vf := w.F("badger.pendingWritesIterator.Value")
+	want := map[string]*types.Var{"Value": w.Field("badger.Entry.Value"), "Meta": w.Field("badger.Entry.meta"), "UserMeta": w.Field("badger.Entry.UserMeta"), "ExpiresAt": w.Field("badger.Entry.ExpiresAt")}
+	got := map[string]bool{}
+	vf.walk(func(n ast.Node) bool {
+		if kv, ok := n.(*ast.KeyValueExpr); ok {
+			if id, ok := kv.Key.(*ast.Ident); ok {
+				if fld, ok := want[id.Name]; ok && w.fieldOf(kv.Value) == fld {
+					got[id.Name] = true
+				}
+			}
+		}
+		return true
+	})
+	for name := range want {
+		r.Check(got[name], vf, "overlay value carries the pending entry's "+name, nil, "pendingWritesIterator.Value does not copy "+name)
 	}
 }
 
 func propC04(c *Check) {
+	ruleR04_4(c)
 	ruleR04_1(c)
 	ruleR04_2(c)
 	ruleR04_3(c)
